@@ -41,13 +41,13 @@ theorem C02_not (env : Env) (p : J) (v : J) (b : Bool) (hp : Spec.resolve env p 
 
 theorem C02_equals (env : Env) (x y vx vy : J) (hx : Spec.resolve env x = some vx)
     (hy : Spec.resolve env y = some vy) :
-    Spec.resolve env (.obj [("Fn::Equals", .arr [x, y])]) = some (.bool (pyEqJ vx vy)) := by
+    Spec.resolve env (.obj [("Fn::Equals", .arr [x, y])]) = some (.bool (eqText vx vy)) := by
   rw [resolve_fn _ _ _ (by decide), eachOf_two, hx, hy]
   unfold applyFn; simp only [ro_equals]; rfl
 
 /-- C02_equals_text: on text (the usual operands) the comparison is equality of the two strings -/
-theorem C02_equals_text (a b : String) : pyEqJ (.str a) (.str b) = (a == b) := by
-  simp only [pyEqJ]
+theorem C02_equals_text (a b : String) : eqText (.str a) (.str b) = (a == b) := by
+  simp only [eqText, asText, pyEqJ]
   by_cases h : a = b
   · subst h; simp
   · have hne : J.str a ≠ J.str b := fun e => h (J.str.inj e)
@@ -60,9 +60,19 @@ theorem C02_equals_text (a b : String) : pyEqJ (.str a) (.str b) = (a == b) := b
 
 /-- C02_equals_objects: two objects with the same members are equal whatever the order of the members -/
 theorem C02_equals_objects_example :
-    pyEqJ (.obj [("team", .str "data"), ("stage", .str "prod")]) (.obj [("stage", .str "prod"), ("team", .str "data")]) = true ∧
-    pyEqJ (.obj [("team", .str "data"), ("stage", .str "prod")]) (.obj [("stage", .str "dev"), ("team", .str "data")]) = false ∧
-    pyEqJ (.arr [.str "a", .str "b"]) (.arr [.str "b", .str "a"]) = false := by decide +kernel
+    eqText (.obj [("team", .str "data"), ("stage", .str "prod")]) (.obj [("stage", .str "prod"), ("team", .str "data")]) = true ∧
+    eqText (.obj [("team", .str "data"), ("stage", .str "prod")]) (.obj [("stage", .str "dev"), ("team", .str "data")]) = false ∧
+    eqText (.arr [.str "a", .str "b"]) (.arr [.str "b", .str "a"]) = false := by decide +kernel
+
+/-- C02_equals_renderings: an operand that is a boolean or a number (a value read from a mapping, the result of a
+    condition function) is compared as the text it renders to: `true` equals the text "true" and not the number 1 (D40) -/
+theorem C02_equals_renderings (b : Bool) (s : String) :
+    eqText (.bool b) (.str s) = ((if b then "true" else "false") == s) ∧
+    eqText (.bool true) (.int 1) = false ∧ eqText (.bool false) (.int 0) = false ∧
+    eqText (.int 1) (.str "1") = true ∧ eqText (.int 1) (.num "1.0") = false ∧
+    eqText (.arr [.bool true, .int 80]) (.arr [.str "true", .str "80"]) = true := by
+  refine ⟨?_, by decide +kernel, by decide +kernel, by decide +kernel, by decide +kernel, by decide +kernel⟩
+  exact C02_equals_text _ s
 
 /-- C02_and_or: conjunction / disjunction of the (leniently read) booleans of all parts -/
 theorem C02_and_or (env : Env) (parts : List J) (vs : List J) (bs : List Bool)
